@@ -491,6 +491,8 @@ VARIANTS = [
          old="                max_relative_ratio: self.max_relative_ratio,", new="                max_relative_ratio: self.resample_ratio_original,"),
     dict(property="C01", name="sample-loop-skips-all-points", file=SINCRS, expect="the sample loop",
          old="for (x, w) in window.iter().enumerate().take(totpoints) {", new="for (x, w) in window.iter().enumerate().skip(totpoints) {"),
+    dict(property="C16", name="partial-skips-one-frame-input", file=LIB, expect="prefix-copy",
+         old="                if frames_in > 0 {", new="                if frames_in > 1 {"),
 ]
 
 
